@@ -37,7 +37,7 @@ from multiprocessing import Pool
 from harness import common
 
 PID = "C17"
-TRANSLATORS = ["T-solvelow"]
+TRANSLATORS = ["T-solvelow", "T-cancel"]
 
 # Genuine defects of halmos exhibited by this check (failing schedules on the real classes).
 KNOWN = common.known_for("C17")  # entries live in /verif/known_findings.json
@@ -49,6 +49,7 @@ PARTIAL = (
     "in the tie (the theorems cover all schedules of the model)"
 )
 ASSUMPTIONS = [
+    "library facts pinned in Spec/ExecSpec.v and cross-checked on every run (T-cancel selfcheck): psutil.Process.wait(timeout) raises psutil.TimeoutExpired, Popen.communicate(timeout) raises subprocess.TimeoutExpired, the two and psutil.NoSuchProcess are unrelated Exception subclasses; SIGKILL ends every process, SIGTERM ends the ones that do not ignore it",
     "each modelled statement of processes.py is atomic (CPython GIL) and threads interleave only between them",
     "a running solver process eventually exits or hits its time limit (label LExit is always enabled for a running process)",
     "each PopenFuture is submitted once, by the thread that then waits on it (as solve_low_level does)",
@@ -91,6 +92,7 @@ def show(sched):
 # =========================================================================== model side
 
 def cfg_words(tmos, waits):
+    # per job: bit 0 = has a time limit, bit 1 = its process ignores SIGTERM ("stubborn")
     return [len(tmos)] + [int(b) for b in tmos] + [len(waits)] + [int(b) for b in waits]
 
 
@@ -313,6 +315,8 @@ class FakeProc:
         self.state, self.returncode = "run", None
         self.stdout, self.stderr, self.stdin = FakeStream(), FakeStream(), None
         self.fin_gate = False
+        self.stubborn = bool(ctl.tmos[j] & 2)      # ignores SIGTERM: only SIGKILL ends it
+        self.sigterms = 0
 
     def die(self, rc):
         if self.state == "run":
@@ -338,13 +342,20 @@ class FakeProc:
         return ANSWER_TEXT[act[1]], ""
 
     def wait(self, timeout=None):
+        # subprocess.Popen.wait: raises subprocess.TimeoutExpired while the process lives
+        if self.state == "run":
+            if timeout is None:
+                self.ctl.errors.append("harness: wait() without timeout on a fake process that runs")
+            raise subprocess.TimeoutExpired(self.cmd, timeout)
         return self.returncode
 
     def kill(self):
         self.die(-9)
 
     def terminate(self):
-        self.die(-15)
+        self.sigterms += 1
+        if not self.stubborn:
+            self.die(-15)
 
 
 class FakePs:
@@ -355,12 +366,19 @@ class FakePs:
         return []
 
     def terminate(self):
-        self.p.die(-15)
+        self.p.terminate()
 
     def kill(self):
         self.p.die(-9)
 
     def wait(self, timeout=None):
+        # psutil.Process.wait: raises psutil.TimeoutExpired while the process lives (no real sleeping here)
+        import psutil
+
+        if self.p.state == "run":
+            if timeout is None:
+                self.p.ctl.errors.append("harness: psutil wait() without timeout on a fake process that runs")
+            raise psutil.TimeoutExpired(timeout, pid=self.p.pid)
         return self.p.returncode
 
     def is_running(self):
@@ -614,7 +632,7 @@ def impl_run(case):
 
         def sub_body(j):
             args = types.SimpleNamespace(resolved_solver_command=["fake-solver", str(j)], verbose=0,
-                                         solver_timeout_assertion=(7.5 if tmos[j] else 0), cache_solver=False)
+                                         solver_timeout_assertion=(7.5 if tmos[j] & 1 else 0), cache_solver=False)
             ctx = types.SimpleNamespace(args=args, path_id=j, dump_file=os.path.join(tmpdir, f"{j}.smt2"),
                                         solving_ctx=solving_ctx, query=None, is_refined=False)
             ctl.gate("enter")           # the call happens when the schedule says so
@@ -855,13 +873,13 @@ def impl_run(case):
                         lab = [POPEN, a, 0]
                     elif t == EXIT:
                         x = r.random()
-                        if x < 0.25 and tmos[a]:
+                        if x < 0.25 and tmos[a] & 1:
                             lab = [COMMTMO, a, 0]
                         elif x < 0.32:
                             lab = [COMMEXC, a, 0]
                     elif t == COMMRET:
                         x = r.random()
-                        if x < 0.1 and tmos[a]:
+                        if x < 0.1 and tmos[a] & 1:
                             lab = [COMMTMO, a, 0]
                         elif x < 0.15:
                             lab = [COMMEXC, a, 0]
@@ -909,7 +927,7 @@ def impl_run(case):
                 out_ = [lab]
                 if t == COMMRET and mask & 8:
                     out_ += [[COMMRET, a, x] for x in (1, 2, 3)]
-                if mask & 4 and tmos[a]:
+                if mask & 4 and tmos[a] & 1:
                     out_.append([COMMTMO, a, 0])
                 if mask & 2:
                     out_.append([COMMEXC, a, 0])
@@ -1072,6 +1090,8 @@ def spec_check(case, res):
                 out.append({"clause": "delivered-exactly-once", "cause": "not-delivered", "detail": f"job {j} accepted but set_result calls = {jb['sets']} at the end (worker: {jb['wpc']})"})
             if acc and jb["spc"][0] != 6:
                 out.append({"clause": "wait-returns", "cause": "waiter-stuck", "detail": f"job {j}: accepted, nothing can move any more, but its submitter is still at {jb['spc']} {stuck.get(str(('sub', j)), '')}"})
+            if jb["proc"] == 1:
+                out.append({"clause": "no-process-after-delivery", "cause": "process-survives-its-job", "detail": f"nothing can move any more but the process of job {j} still runs (set_result calls {jb['sets']})"})
             if not acc and jb["spc"][0] != 7:
                 out.append({"clause": "wait-returns", "cause": "submit-stuck", "detail": f"job {j}: not accepted, nothing can move any more, its submitter is at {jb['spc']} {stuck.get(str(('sub', j)), '')}"})
         for k in range(len(waits)):
@@ -1094,8 +1114,8 @@ def spec_check(case, res):
                 break
     # a job without time limit must not be given one, and vice versa
     for j, v in enumerate(res.get("comm_timeouts", [])):
-        if first(lambda l: l[0] in (COMMRET, COMMTMO, COMMEXC) and l[1] == j) is not None and bool(v) != bool(tmos[j]):
-            out.append({"clause": "timeout-unknown", "cause": "timeout-not-passed", "detail": f"job {j}: communicate(timeout={'set' if v else 'None'}) but time limit configured = {bool(tmos[j])}"})
+        if first(lambda l: l[0] in (COMMRET, COMMTMO, COMMEXC) and l[1] == j) is not None and bool(v) != bool(tmos[j] & 1):
+            out.append({"clause": "timeout-unknown", "cause": "timeout-not-passed", "detail": f"job {j}: communicate(timeout={'set' if v else 'None'}) but time limit configured = {bool(tmos[j] & 1)}"})
     # after a shutdown() call has ended: it has not raised, nothing is accepted any more, no process runs
     for k, w in enumerate(waits):
         ri = next((i for i, o in enumerate(obs) if o["sds"][k]["dpc"] in (5, 6)), None)
@@ -1182,11 +1202,18 @@ def real_low_level(spec):
     ctx = types.SimpleNamespace(args=args, path_id=1, dump_file=os.path.join(tmpdir, "q.smt2"),
                                 solving_ctx=types.SimpleNamespace(executor=ex), query=None, is_refined=False)
     t0 = time.time()
-    try:
-        out = S.solve_low_level(ctx)
-        res = verdict_code(out.result)
-    except Exception as e:  # noqa: BLE001
-        res = f"EXC {type(e).__name__}"
+    box = {}
+
+    def call():
+        try:
+            box["res"] = verdict_code(S.solve_low_level(ctx).result)
+        except Exception as e:  # noqa: BLE001
+            box["res"] = f"EXC {type(e).__name__}"
+
+    th = real_threading.Thread(target=call, daemon=True)
+    th.start()
+    th.join(spec.get("deadline", 15))
+    res = box.get("res", "HANG: solve_low_level did not return (result never delivered)")
     wall = time.time() - t0
     f = ex.futures[0] if ex.futures else None
     # every child has been sent SIGKILL by now; give the kernel a moment to tear them down
@@ -1215,6 +1242,7 @@ REAL_CASES = [
     ("echo unsat; sleep 5", 0.3, 2, "answer printed, then hangs past the limit"),
     ("(sleep 7; echo unsat) & wait", 0.3, 2, "child of the solver hangs past the limit"),
     ("exit 3", 0, 3, "solver fails without output"),
+    ("trap '' TERM; sleep 6; echo unsat", 0.3, 2, "solver (and its child) ignore SIGTERM past the time limit: must be SIGKILLed and reported unknown"),
 ]
 
 
@@ -1318,6 +1346,13 @@ CORPUS = [
      "tmos": [0], "waits": [1], "maximal": True,
      "sched": L(("c", 0), ("a", 0), ("r", 0), ("ds", 0), ("p", 0), ("s", 0), ("l", 0), ("da", 0), ("dn", 0), ("dl", 0), ("P", 0, 1),
                 ("X", 0), ("R", 0, 0), ("F", 0), ("S", 0), ("dj", 0), ("dr", 0), ("w", 0))},
+    # a solver process that ignores SIGTERM (job configuration bit 1): time limit, and shutdown(wait=False)
+    {"name": "a job whose process ignores SIGTERM exceeds its time limit: force-killed, delivered, reported unknown",
+     "tmos": [3], "waits": [], "maximal": True,
+     "sched": _submit(0) + L(("P", 0, 1), ("T", 0), ("F", 0), ("S", 0), ("w", 0))},
+    {"name": "shutdown(wait=False) force-kills a process that ignores SIGTERM; the job is delivered",
+     "tmos": [2], "waits": [0], "maximal": True,
+     "sched": _submit(0) + L(("P", 0, 1), ("ds", 0), ("da", 0), ("dc", 0, 0), ("dr", 0), ("R", 0, 0), ("F", 0), ("S", 0), ("w", 0))},
     # a second shutdown request while the first one is in progress (processes.main(): `with` exit = wait=True, callback = wait=False)
     {"name": "shutdown(wait=False) issued while shutdown(wait=True) is blocked in _join kills the job and unblocks it",
      "tmos": [0], "waits": [1, 0], "maximal": True,
@@ -1331,12 +1366,14 @@ def families(tier):
     fam = []
     if tier == "quick":
         fam += [([0], [], 3, 15), ([1], [], 3, 15)]
-        fam += [([0], [0], 2, 0), ([1], [0], 2, 4), ([0], [1], 2, 0), ([0], [0], 1, 15), ([1], [1], 1, 4), ([0], [0, 1], 1, 0), ([1], [0, 0], 0, 4)]
+        fam += [([1], [0], 1, 4), ([0], [1], 1, 0), ([0], [0], 1, 15), ([1], [1], 1, 4), ([0], [0, 1], 0, 0), ([1], [0, 0], 0, 4)]
         fam += [([0, 0], [], 0, 0), ([0, 1], [0], 0, 0), ([0, 0], [1], 0, 0)]
+        fam += [([3], [], 2, 6), ([3], [0], 1, 4), ([2], [1, 0], 0, 0)]          # processes that ignore SIGTERM
     else:
         fam += [([0], [], 4, 15), ([1], [], 4, 15)]
         fam += [([1], [0], 3, 15), ([1], [1], 3, 15), ([0], [0, 1], 2, 0), ([0], [1, 0], 2, 0), ([1], [0, 0], 2, 0), ([1], [1, 1], 1, 4)]
         fam += [([0, 0], [], 2, 0), ([0, 1], [0], 1, 0), ([0, 0], [1], 0, 7), ([0, 1], [0], 0, 4), ([1, 0], [1], 0, 4)]
+        fam += [([3], [], 3, 15), ([3], [0], 2, 6), ([2], [1, 0], 1, 0), ([3, 2], [0], 0, 4)]
     return fam
 
 
@@ -1401,7 +1438,10 @@ def report_violation(rep, case, labels, v, hist):
             rep.count("known_finding_schedules", k["id"])
             if k["id"] not in _printed_known:
                 _printed_known.add(k["id"])
-                print(f"KNOWN-FINDING: property={PID} {k['id']}: {k['what']} -- e.g. schedule [{show(labels)}] ({v['detail']})")
+                # recorded as a failing input with its signature: Report.finish matches it against known_findings.json
+                # and prints the KNOWN-FINDING line
+                rep.fail("failing-input", f"{v['clause']} / {v['cause']}: {v['detail']} -- e.g. schedule [{show(labels)}] jobs(tmo)={case['tmos']} shutdown(wait)={case['waits']}",
+                         case={"tmos": case["tmos"], "waits": case["waits"], "sched": [l for l in labels if l is not None], "maximal": False, "violation": v}, sig=sig)
                 rep.coverage.setdefault("known_finding_examples", {})[k["id"]] = {
                     "tmos": case["tmos"], "waits": case["waits"], "schedule": show(labels), "sched": labels, "detail": v["detail"], "sig": sig}
             return True
@@ -1424,7 +1464,8 @@ def run(rep, tier):
     cases = [dict(c, maximal=c.get("maximal", False), family="corpus") for c in CORPUS]
     exhaustive_note = []
     # schedules chosen by the implementation itself (no model needed): random completions from the initial state
-    free_cfg = [([0], [0], 30), ([1], [1], 30), ([0], [1, 0], 50), ([0, 1], [0], 50), ([1, 0], [1], 50), ([0, 0], [1, 0], 60), ([1, 0], [0, 0], 30)]
+    free_cfg = [([0], [0], 30), ([1], [1], 30), ([0], [1, 0], 50), ([0, 1], [0], 50), ([1, 0], [1], 50), ([0, 0], [1, 0], 60), ([1, 0], [0, 0], 30),
+                ([3], [0], 30), ([2, 3], [0, 1], 40)]
     if tier != "quick":
         free_cfg = [(tm, wa, c * 5) for tm, wa, c in free_cfg] + [([0, 1, 0], [1, 0], 300), ([0, 0, 1], [0], 200)]
     for tm, wa, cnt in free_cfg:
@@ -1443,7 +1484,7 @@ def run(rep, tier):
             for s in ss:
                 cases.append({"tmos": tm, "waits": wa, "sched": s, "maximal": True, "family": f"exh:{len(tm)}j{len(wa)}s"})
         # random deeper schedules
-        rnd = [([0, 1], [0], 120, 3), ([0, 0], [1], 100, 3), ([1, 0], [0, 1], 80, 3), ([0], [1, 0], 50, 4), ([0, 1], [1, 0], 80, 3)] if tier == "quick" else \
+        rnd = [([0, 1], [0], 120, 3), ([0, 0], [1], 100, 3), ([1, 0], [0, 1], 80, 3), ([0], [1, 0], 50, 4), ([0, 1], [1, 0], 80, 3), ([3, 2], [0, 1], 60, 3)] if tier == "quick" else \
               [([0, 1], [0], 700, 4), ([0, 0], [1], 500, 4), ([1, 0], [0, 1], 500, 4), ([0, 1], [1, 0], 500, 4), ([0, 1, 0], [0], 700, 3), ([0, 0, 1], [1], 500, 3), ([0, 1, 0], [0, 1], 500, 3)]
         for tm, wa, cnt, P_ in rnd:
             for s in random_schedules(exe, r, tm, wa, cnt, P_):
@@ -1458,8 +1499,9 @@ def run(rep, tier):
         rand_async = pool.map_async(real_random_run, [r.randrange(1 << 30) for _ in range(nreal)], chunksize=1) if nreal else None
         real = real_async.get(600)
         rand_real = rand_async.get(1500) if rand_async else []
-        ex_cfgs = [([0], [0], 2, 0), ([0], [1], 2, 0), ([1], [1], 1, 4), ([1], [0], 1, 6), ([0], [1, 0], 1, 0), ([0, 0], [0], 0, 0), ([0, 0], [1], 0, 0)] if tier == "quick" else \
-                  [([0], [0], 2, 15), ([1], [1], 2, 4), ([0], [1, 0], 1, 0), ([1], [0, 0], 1, 4), ([0, 0], [0], 1, 0), ([0, 1], [1], 0, 4)]
+        ex_cfgs = [([0], [0], 2, 0), ([0], [1], 2, 0), ([1], [1], 1, 4), ([1], [0], 1, 6), ([0], [1, 0], 1, 0), ([0, 0], [0], 0, 0), ([0, 0], [1], 0, 0),
+                   ([3], [0], 1, 4), ([2], [0], 1, 0)] if tier == "quick" else \
+                  [([0], [0], 2, 15), ([1], [1], 2, 4), ([0], [1, 0], 1, 0), ([1], [0, 0], 1, 4), ([0, 0], [0], 1, 0), ([0, 1], [1], 0, 4), ([3], [0], 2, 6), ([2, 3], [0], 0, 4)]
         ex_cases, ex_res, ex_notes = explore_impl(pool, ex_cfgs, 600 if tier == "quick" else 1500)
         exhaustive_note += ex_notes
         impl = []
@@ -1532,6 +1574,8 @@ def run(rep, tier):
             kinds.append("failure")
         if SUBUNLOCK in tags:
             kinds.append("rejected-under-lock")
+        if any(x & 2 for x in c["tmos"]):
+            kinds.append("process-ignores-SIGTERM")
         rep.count("family", c["family"])
         rep.count("length", len(labels) // 5 * 5)
         for k in kinds or ["plain"]:
